@@ -249,19 +249,46 @@ def _async(ctx, R, T):
     for n in g.live_nodes():
         for c in node_calls(n):
             if isinstance(c.func, ast.Attribute) and varkey(unawait(c.func.value)) == selfn + "._writer":
-                ok = any(fa[0] == ("truthy", wk) and fa[1] is True for fa in df.facts(n))
+                nk = key(ast.Constant(value=None))
+                ok = any((fa[0] == ("truthy", wk) and fa[1] is True) or (fa[0] == ("is",) + tuple(sorted([wk, nk])) and fa[1] is False) for fa in df.facts(n))       # `if self._writer:` / `if self._writer is not None:`
                 R.check(ok, "CLOSE", "%s|%s" % (f.qualname, norm_stmt(c)), "writer touched only when connected (closing twice is a no-op)", "`%s` runs even when not connected" % norm_stmt(c), f.loc(n.ast))
     f = cls.methods["connect"]
     g = ctx.cfg(f)
-    asg = [n for n in g.live_nodes() if n.kind == "stmt" and isinstance(n.ast, ast.Assign) and isinstance(n.ast.targets[0], ast.Tuple)
-           and [varkey(t) for t in n.ast.targets[0].elts] == [f.params[0] + "._reader", f.params[0] + "._writer"]]
-    ok = len(asg) == 1
-    if ok:
-        t = T.term(f, asg[0], asg[0].ast.value)
-        ok = t == ("call", "asyncio.open_connection", (("attr", ("p", f.params[0]), "_host"), ("attr", ("p", f.params[0]), "_port")), ())
-        _under_timeout(ctx, R, T, f, asg[0], f.params[1])
-        # every normal exit passed the assignment
-        ok = ok and g.dominates(asg, g.exit, exc=True)
+    selfn = f.params[0]
+    want = ("call", "asyncio.open_connection", (("attr", ("p", selfn), "_host"), ("attr", ("p", selfn), "_port")), ())
+    # every store to self._reader / self._writer: the value is element 0 / 1 of open_connection(host, port) made in this call (directly, or through locals)
+    stores = {"_reader": [], "_writer": []}
+    ok = True
+    for n in g.live_nodes():
+        if n.kind != "stmt" or not isinstance(n.ast, (ast.Assign, ast.AugAssign, ast.AnnAssign)):
+            continue
+        if not isinstance(n.ast, ast.Assign):
+            tg = n.ast.target
+            if varkey(tg) in (selfn + "._reader", selfn + "._writer"):
+                ok = False
+            continue
+        vt = None
+        for tg in n.ast.targets:
+            elts = list(tg.elts) if isinstance(tg, (ast.Tuple, ast.List)) else None
+            if elts is None:
+                a = varkey(tg)
+                if a in (selfn + "._reader", selfn + "._writer"):
+                    vt = vt if vt is not None else T.term(f, n, n.ast.value)
+                    stores[a.split(".")[1]].append((n, vt))
+            else:
+                for k, e in enumerate(elts):
+                    a = varkey(e) if not isinstance(e, ast.Starred) else None
+                    if a in (selfn + "._reader", selfn + "._writer"):
+                        vt = vt if vt is not None else T.term(f, n, n.ast.value)
+                        stores[a.split(".")[1]].append((n, T.project(vt, k)))
+    for attr, idx in (("_reader", 0), ("_writer", 1)):
+        ok = ok and bool(stores[attr]) and all(t == ("proj", want, idx) for _n, t in stores[attr])
+        # every normal exit passed a store
+        ok = ok and g.dominates([n for n, _t in stores[attr]], g.exit, exc=True)
+    calls = [n for n in g.live_nodes() for c in node_calls(n) if T.term(f, n, c) == want]
+    ok = ok and len(calls) == 1
+    for cn in calls[:1]:
+        _under_timeout(ctx, R, T, f, cn, f.params[1])
     R.check(ok, "CONNECT", f.qualname, "connect() binds fresh (reader, writer) to (host, port), in that order", "connect() does not bind (reader, writer) = open_connection(host, port) on every successful path", f.loc())
 
 
